@@ -38,6 +38,7 @@ type stats struct {
 	Select            int            `json:"select_rewritten"`
 	SelectSimple      int            `json:"select_single"`
 	UncontrolledSel   int            `json:"uncontrolled_select"`
+	RMW               int            `json:"read_modify_write_splits"`
 	MapChecks         int            `json:"map_access_checks"`
 	MapChecksSkipped  int            `json:"map_accesses_not_checked"`
 	MapRange          int            `json:"map_range_sorted"`
@@ -199,7 +200,7 @@ func main() {
 		isExt[e] = true
 	}
 	for _, p := range loaded {
-		rw := &rewriter{pkg: p, fset: p.Fset, repo: *repo, fs: fsPkgs[p.PkgPath], maps: mapPkgs[p.PkgPath], hb: len(mapPkgs) > 0}
+		rw := &rewriter{pkg: p, fset: p.Fset, repo: *repo, fs: fsPkgs[p.PkgPath], maps: mapPkgs[p.PkgPath], hb: len(mapPkgs) > 0, rmw: !isExt[p.PkgPath] && !strings.Contains(p.PkgPath, "/verifsim/")}
 		isHarness := strings.Contains(p.PkgPath, "/verifsim/harness/")
 		var reinitCalls []string
 		for i, f := range p.Syntax {
@@ -375,6 +376,7 @@ type rewriter struct {
 	fs     bool
 	maps   bool // report map accesses of this package to the race tracker
 	hb     bool // add the happens-before calls around channel operations
+	rmw    bool // split read-modify-write statements on shared variables (R10)
 	usedRT bool
 	usedFS bool
 	tmpN   int
@@ -531,6 +533,10 @@ func (r *rewriter) post(c *astutil.Cursor) bool {
 		}
 	case *ast.RangeStmt:
 		r.rewriteRange(c, n)
+	case *ast.AssignStmt, *ast.IncDecStmt:
+		if r.rmw {
+			r.rewriteRMW(c)
+		}
 	case *ast.SelectStmt:
 		r.rewriteSelect(c, n)
 	case *ast.CallExpr:
